@@ -16,12 +16,20 @@ func symString(max int) amf0.String {
 		b[0], b[n-1] = vU8(), vU8()
 		return amf0.String(string(b))
 	}
-	return amf0.String(vStr(vChoice(max + 1)))
+	return amf0.String(vStr(vChoice(max + 1 + 2*vTier())))
 }
 
 // symObject: an AMF0 object with 0-1 properties (key 0-1 symbolic bytes, number or string value).
 func symObject() *amf0.Object {
 	o := amf0.NewObject()
+	if vTier() == 1 && vChoice(3) == 0 {
+		// two properties, the second a nested object
+		o.Set(vStr(1), amf0.NewBoolean(vBool()))
+		in := amf0.NewObject()
+		in.Set(vStr(vChoice(2)), amf0.NewNumber(math.Float64frombits(vU64())))
+		o.Set("n"+vStr(1), in)
+		return o
+	}
 	if vChoice(2) == 1 {
 		if vChoice(2) == 0 {
 			o.Set(vStr(vChoice(2)), amf0.NewNumber(math.Float64frombits(vU64())))
@@ -293,7 +301,7 @@ func HarnessC03_Transactions() {
 	var reqs []*req
 	steps := 3
 	if vTier() == 1 {
-		steps = 4
+		steps = 5
 	}
 	for s := 0; s < steps; s++ {
 		switch vChoice(3) {
